@@ -177,8 +177,36 @@ def seq_cases(rng, tier):
     return cases
 
 
+def trunc_cases(tier):
+    """truncated date forms (no year): a day of month without a month is bounded by the longest month of the calendar,
+    with a month by that month's length in a leap year, a day of year by the leap-year length, a week by the longest
+    week-year; one value inside and one outside each bound, in every calendar"""
+    from props.common import weeks_in
+    cases = []
+    for md in MODES:
+        maxdom = 30 if md == "360" else 31
+        leapdays = {"360": 360, "365": 365}.get(md, 366)
+        maxweeks = max(weeks_in(md, y) for y in range(1995, 2030))
+        items = []
+        for d in (1, 28, 29, 30, 31, 32):
+            items.append(("---%02d" % d, 1 <= d <= maxdom))
+        for mo, d in [(2, 28), (2, 29), (2, 30), (4, 30), (4, 31), (1, 31), (12, 31), (13, 1), (0, 1)]:
+            ml = (30 if md == "360" else (29 if md in ("G", "366") else 28) if mo == 2 else [31, 28, 31, 30, 31, 30, 31, 31, 30, 31, 30, 31][mo - 1]) \
+                if 1 <= mo <= 12 else 0
+            items.append(("--%02d-%02d" % (mo, d), 1 <= mo <= 12 and 1 <= d <= ml))
+        for doy in (1, 360, 361, 365, 366, 367):
+            items.append(("-%03d" % doy, 1 <= doy <= leapdays))
+        for w in (1, 51, 52, 53, 54):
+            for dow in (1, 7, 8):
+                items.append(("-W%02d-%d" % (w, dow), 1 <= w <= maxweeks and 1 <= dow <= 7))
+        for text, ok in items:
+            cases.append(Case(["parse %s 2 1 0 - - 1 0 0 0 %s" % (md, enc(text))], ["truncated-bounds", "mode:" + md],
+                              md=md, fam="Y", ok=ok, text=text + " (truncated, mode %s)" % md))
+    return cases
+
+
 def generate(rng, tier):
-    return ctor_cases(tier) + seq_cases(rng, tier) + text_invalid_cases(rng, tier) + malformed_cases(rng, tier)
+    return ctor_cases(tier) + trunc_cases(tier) + seq_cases(rng, tier) + text_invalid_cases(rng, tier) + malformed_cases(rng, tier)
 
 
 def model_lines(c):
